@@ -53,7 +53,7 @@ def judge (inp obs : List String) : Verdict :=
            match implRows with
            | some ir => if Judge.Pool.sortRows (ir.map fun r => { r with options := [] }) == Judge.Pool.sortRows rows then []
                         else ["unsat:C18.upgrade_preserves_rows:rows-differ"]
-           | none => ["unsat:C18.upgrade_preserves_rows:no-rows"])
+           | none => ["unsat:C18.upgrade_preserves_rows:no-rows", "unsat:C20.entries_match_rows:listing-fails-on-upgraded-store"])
         else
           (if second != "refused" then ["unsat:C18.newer_refused:not-refused"] else []) ++
           (if unch != "1" && crash == "none" then ["unsat:C18.newer_refused:file-modified"] else [])
